@@ -236,7 +236,11 @@ MgrGetTopic_G(name, ti) ==
 MgrGetTopic(name, ti) == AllHold(MgrGetTopic_G(name, ti)) /\ UNCHANGED coreVars
 
 MgrInsertSub_G(name, si, ti, d, push, ok) ==
-    { G("C10", ok <=> name \notin DOMAIN smap),
+    { \* refused exactly when the name is bound ...
+      G("C10", ~ok => name \in DOMAIN smap),
+      \* ... a create that replaces a bound name also orphans the old incarnation, which stays in
+      \* its topic's list (C11)
+      G("C10,C11", ok => name \notin DOMAIN smap),
       G("C09", ok => si \notin DOMAIN S),
       G("BIND", ti \in DOMAIN T) }
 MgrInsertSub_A(name, si, ti, d, push, ok) ==
